@@ -17,7 +17,8 @@ BuiltIn ==
     [name |-> "GetLike",    stream |-> FALSE, mut |-> FALSE, feats |-> {"name", "keys", "list", "island"}],
     [name |-> "StreamLike", stream |-> TRUE,  mut |-> FALSE, feats |-> {"name", "enum", "int", "from", "island"}],
     [name |-> "BulkLike",   stream |-> TRUE,  mut |-> TRUE,  feats |-> {"name", "list", "island"}],
-    [name |-> "NoName",     stream |-> FALSE, mut |-> FALSE, feats |-> {"int"}] }
+    [name |-> "NoName",     stream |-> FALSE, mut |-> FALSE, feats |-> {"int"}],
+    [name |-> "RegisterLike", stream |-> FALSE, mut |-> TRUE, feats |-> {"name", "pattern", "int", "enum"}] }
 
 HasEnv(k) == k \in DOMAIN IOEnv /\ IOEnv[k] # ""
 
@@ -42,7 +43,7 @@ TableCreates ==
 AllShapes ==
   {"valid", "empty_req", "name_empty", "name_one", "name_two", "name_four", "name_slashes", "name_trailing", "name_wild",
    "name_nul", "name_long", "keys_empty", "keys_blank", "keys_huge", "keys_dup", "key_empty", "key_huge", "list_empty",
-   "nil_sub", "enum_oob", "neg_ints", "neg_from", "huge_from", "island_zero", "island_huge"}
+   "nil_sub", "enum_oob", "neg_ints", "max_ints", "min_ints", "neg_from", "huge_from", "island_zero", "island_huge"}
 
 VARIABLES pc, cur, locked, vigils, store, out, alive
 
